@@ -21,10 +21,12 @@ instance (b v c : Nat) : Decidable (withinStep b v c) := by unfold withinStep; i
 8-, 4- and 1-bit channels of the model hit it exactly). -/
 def expand (b v : Nat) : Nat := (2 * 255 * v + (2 ^ b - 1)) / (2 * (2 ^ b - 1))
 
-/-- Source of an output channel inside the texel value: `width` bits starting at bit `shift`,
-or no source (the format does not store the channel; the property does not constrain it). -/
+/-- Source of an output channel inside the texel value: `width` bits starting at bit `shift`;
+`one` = the format stores no alpha, the texel is opaque (alpha 1.0, rendered 255); `absent` = the
+format stores no colour (A8) and the property does not say what the unused colour is. -/
 inductive Src
   | bits (shift width : Nat)
+  | one
   | absent
   deriving DecidableEq, Repr
 
@@ -42,10 +44,10 @@ structure Layout where
 def layout : Nat → Option Layout
   | 0 => some ⟨4, .bits 24 8, .bits 16 8, .bits 8 8, .bits 0 8⟩      -- RGBA8
   | 2 => some ⟨2, .bits 11 5, .bits 6 5, .bits 1 5, .bits 0 1⟩        -- RGBA5551
-  | 3 => some ⟨2, .bits 11 5, .bits 5 6, .bits 0 5, .absent⟩          -- RGB565
+  | 3 => some ⟨2, .bits 11 5, .bits 5 6, .bits 0 5, .one⟩             -- RGB565 (opaque)
   | 4 => some ⟨2, .bits 12 4, .bits 8 4, .bits 4 4, .bits 0 4⟩        -- RGBA4
   | 5 => some ⟨2, .bits 8 8, .bits 8 8, .bits 8 8, .bits 0 8⟩         -- LA8 (luminance replicated)
-  | 7 => some ⟨1, .bits 0 8, .bits 0 8, .bits 0 8, .absent⟩           -- L8
+  | 7 => some ⟨1, .bits 0 8, .bits 0 8, .bits 0 8, .one⟩              -- L8 (opaque)
   | 8 => some ⟨1, .absent, .absent, .absent, .bits 0 8⟩               -- A8
   | _ => none
 
@@ -53,6 +55,7 @@ def layout : Nat → Option Layout
 def chanOk (s : Src) (value c : Nat) : Prop :=
   match s with
   | .bits shift width => withinStep width (value / 2 ^ shift % 2 ^ width) c
+  | .one => c = 255
   | .absent => c ≤ 255
 
 instance (s : Src) (value c : Nat) : Decidable (chanOk s value c) := by
@@ -67,7 +70,7 @@ instance (l : Layout) (value r g b a : Nat) : Decidable (pixelOk l value r g b a
 
 /-- RGB5A3 (big-endian 16-bit): top bit set = RGB555 opaque, top bit clear = A3 RGB444. -/
 def rgb5a3Layout (value : Nat) : Layout :=
-  if value / 2 ^ 15 % 2 = 1 then ⟨2, .bits 10 5, .bits 5 5, .bits 0 5, .absent⟩
+  if value / 2 ^ 15 % 2 = 1 then ⟨2, .bits 10 5, .bits 5 5, .bits 0 5, .one⟩
   else ⟨2, .bits 8 4, .bits 4 4, .bits 0 4, .bits 12 3⟩
 
 /-- little-endian value of the `n` bytes at `pos` of `d` (bytes beyond the end count as 0; every
